@@ -249,7 +249,11 @@ def canon(line):
     out, run = [], []
 
     def flush():
-        out.extend([t for t in run if t.startswith("w:")] + [t for t in run if t.startswith("p:")])
+        ps = [t for t in run if t.startswith("p:")]
+        # the insufficient-state unsubscribe runs on its own goroutine: publications delivered before it
+        # completes each trigger one (duplicate unsubscribe pushes); keep one
+        ps = [t for i, t in enumerate(ps) if not (t == "p:unsub:2500" and "p:unsub:2500" in ps[:i])]
+        out.extend([t for t in run if t.startswith("w:")] + ps)
         run.clear()
     for t in line.split():
         if t.startswith("w:") or t.startswith("p:"):
